@@ -12,7 +12,8 @@ BACKENDS = (
     ("sge", "gwf.backends.sge", "SGEOps", "#$ ", REF.QSUB_FLAGS, REF.QSUB_FIXED),
     ("lsf", "gwf.backends.lsf", "LSFOps", "#BSUB ", REF.BSUB_FLAGS, REF.BSUB_FIXED),
 )
-SPEC, WD, PROJ, NAME = tok("SPEC"), tok("WD"), tok("PROJ"), "NAME"
+# target names may contain dots (is_valid_name): a log path built with Path.with_suffix() would drop the part after the last dot
+SPEC, WD, PROJ, NAME = tok("SPEC"), tok("WD"), tok("PROJ"), "NAME.v1"
 
 
 def make_target(ctx, options, spec=None):
